@@ -1,10 +1,12 @@
 // C09: ordered results are globally sorted; limit/offset is a window of them.
-// Bounded exhaustive enumeration (Engine E) on the real code, four sections:
+// Bounded exhaustive enumeration (Engine E) on the real code, six sections:
 //
 //	sidx     banyand/internal/sidx StreamingQuery/QuerySync over every distribution of <=N entries over <=3 parts
 //	itersort pkg/iter/sort k-way merge over every distribution of <=6 items over <=3 sorted iterators
 //	measure  real measure tsTable + queryResult ordered pull over rows spread over <=3 parts and 2 series
 //	limit    measure/stream limit+offset(+merge) plan nodes and TopQueue against list[offset:offset+limit]
+//	stream   real stream tsTable + tsResult (query_by_ts.go) over every arrangement of part time intervals
+//	idxsort  index-mode measure ordered merge across segments (buildIndexQueryResult / segResultHeap / indexSortResult)
 package main
 
 import (
@@ -102,7 +104,7 @@ func (w *wres) violation(key string, size int, artefact map[string]any) {
 	w.Viol[key] = &violRec{Key: key, Size: size, Artefact: cp}
 }
 
-var sections = []string{"sidx", "itersort", "measure", "limit"}
+var sections = []string{"sidx", "itersort", "measure", "limit", "stream", "idxsort"}
 
 func wantSection(s string) bool {
 	only := ev.Arg("--section")
@@ -152,6 +154,15 @@ func main() {
 			if wantSection("limit") {
 				limitWorker(wi, wn, thorough, res)
 				res.endSection("limit")
+			}
+			if wantSection("stream") {
+				budget(4*time.Minute, 9*time.Minute)
+				streamWorker(wi, wn, thorough, base, res)
+				res.endSection("stream")
+			}
+			if wantSection("idxsort") {
+				idxsortWorker(wi, wn, thorough, res)
+				res.endSection("idxsort")
 			}
 		}()
 		for k := range res.outcomes {
@@ -249,7 +260,7 @@ func main() {
 	r.Set("distinct_outcomes", len(outcomes))
 	r.Set("violating_evaluations_by_key", violCount)
 	r.Set("bounds", boundsText(thorough))
-	r.Set("rule", "every enumerated case is distinct by construction (dataset x layout x query parameters); non-trivial = sidx/measure: the reference result has >=2 rows and the data sits in >=2 blocks (parts/series), so a cross-block merge decides the order; itersort: >=2 non-empty input iterators; limit: the window cuts the list (offset>0 or limit<len) and the list has >=2 rows")
+	r.Set("rule", "every enumerated case is distinct by construction (dataset x layout x query parameters); non-trivial = sidx/measure: the reference result has >=2 rows and the data sits in >=2 blocks (parts/series), so a cross-block merge decides the order; itersort: >=2 non-empty input iterators; stream: >=2 parts and >=2 matching rows; idxsort: >=2 series over >=2 segments; limit: the window cuts the list (offset>0 or limit<len) and the list has >=2 rows")
 	r.Assume("sidx entries carry pairwise distinct payloads (sidx de-duplicates equal payloads by design, which is trace-specific and not part of C09)")
 	r.Assume("QuerySync with MaxBatchSize>0 is judged as a documented result budget: an ordered prefix with at least min(MaxBatchSize, matches) entries")
 	r.Assume("measure rows have pairwise distinct (series, timestamp): version de-duplication is C02's subject")
@@ -266,6 +277,8 @@ func boundsText(thorough bool) map[string]any {
 		"itersort": "every distribution of <=6 items with keys 1..4 over <=3 sorted iterators (empty iterators included), asc/desc",
 		"measure":  measureBoundsText(thorough),
 		"limit":    "offset,limit in 0..7 x 0..7; lists of <=6 rows with keys 1..4 over <=3 children; asc/desc; child chunking",
+		"stream":   streamBoundsText(thorough),
+		"idxsort":  "index-mode measure merge: <=4 (quick) / <=5 (thorough, 5: sort values non-decreasing in series id) series, sort values {1,2,3}, each series in any non-empty subset of 3 segments, asc/desc",
 	}
 }
 
@@ -305,6 +318,14 @@ func replay(p string) {
 		var c lCase
 		must(json.Unmarshal(a.Artefact.Case, &c))
 		ok = limitReplay(&c)
+	case "stream":
+		var c tCase
+		must(json.Unmarshal(a.Artefact.Case, &c))
+		ok = streamReplay(&c)
+	case "idxsort":
+		var c xCase
+		must(json.Unmarshal(a.Artefact.Case, &c))
+		ok = idxsortReplay(&c)
 	default:
 		fmt.Println("unknown section", a.Artefact.Section)
 		os.Exit(2)
